@@ -583,17 +583,17 @@ class Interp:
         name = callee_name(t)
         args = tuple(self._operand(st, frame, a, fn) for a in t['args'])
         # call values/effects carry a snapshot of what each reference argument points at
-        sargs = []
-        for a in args:
+        def snapped(a, depth=0):
             if a[0] == 'ref' and len(a) == 3:
                 try:
                     snap = self._read_lv(st, a[1])
                 except Exception:
                     snap = ('unk', 'snap')
-                sargs.append(('ref', a[1], a[2], snap))
-            else:
-                sargs.append(a)
-        sargs = tuple(sargs)
+                return ('ref', a[1], a[2], snap)
+            if a[0] == 'agg' and depth < 2 and a[1] != 'closure':
+                return ('agg', a[1], a[2], a[3], tuple((n, snapped(x, depth + 1)) for n, x in a[4]))
+            return a
+        sargs = tuple(snapped(a) for a in args)
         site = (fn.defp, bb, st.visits.get((frame, bb), 1))
         eff = Effect('call', (None, name, sargs, site), fn, bb, frame, t, len(st.decisions))
         st.effects.append(eff)
